@@ -882,6 +882,13 @@ int cif_container_get_all_loops(cif_container_tp *container, cif_loop_tp ***loop
 
     cif = container->cif;
 
+    /*
+     * Create any needed prepared statements, or prepare the existing one(s)
+     * for re-use, exiting this function with an error on failure.  That must
+     * not happen while this function's transaction is open.
+     */
+    PREPARE_STMT(cif, get_all_loops, GET_ALL_LOOPS_SQL);
+
     if (BEGIN_NESTTX(cif->db) == SQLITE_OK) {
         int result = cif_container_validate(container);
 
@@ -892,12 +899,6 @@ int cif_container_get_all_loops(cif_container_tp *container, cif_loop_tp ***loop
             } *head = NULL;
             struct loop_el **next_loop_p = &head;
             struct loop_el *next_loop;
-
-            /*
-             * Create any needed prepared statements, or prepare the existing one(s)
-             * for re-use, exiting this function with an error on failure.
-             */
-            PREPARE_STMT(cif, get_all_loops, GET_ALL_LOOPS_SQL);
 
             if (sqlite3_bind_int64(cif->get_all_loops_stmt, 1, container->id) == SQLITE_OK) {
                 STEP_HANDLING;
@@ -951,9 +952,13 @@ int cif_container_get_all_loops(cif_container_tp *container, cif_loop_tp ***loop
                                     temp_loops[loop_index] = &(next_loop->loop);
                                 }
                                 temp_loops[loop_count] = NULL;
-                                *loops = temp_loops;
-                                ROLLBACK_NESTTX(cif->db);
-                                return CIF_OK;
+                                if (ROLLBACK_NESTTX(cif->db) == SQLITE_OK) {
+                                    *loops = temp_loops;
+                                    return CIF_OK;
+                                }
+                                /* the transaction is still open; fail, which tries once more to end it */
+                                free(temp_loops);
+                                DEFAULT_FAIL(soft);
                             }
                     }
                 }
